@@ -16,7 +16,7 @@ func init() {
 		LevelText:   "Structural clauses decided for all paths: every access to the partition's group-subscriber table holds consumersMu; an older group epoch is refused before anything happens to the existing subscription; on replacement the previous subscription is closed before the new entry is stored and every early return in between leaves the table untouched; a subscription loop that ends may remove the table entry only after comparing something unique to its own subscription (pointer identity), not a copyable id. The interleavings themselves are not decided.",
 		LevelNote:   "Trusted: go/ssa; the correlated-condition reasoning (a lock taken on the true edge of a pure condition is held wherever the true edge of a structurally equal condition over the same SSA operands dominates).",
 		DesignRef:   "DESIGN.md §4 C13",
-		Explanation: "R13.8 also (round 8): cancelGroupSubscribers closes the gate on every path, whatever the server believes its role was. R13.2 also: the member's epoch is compared with the request's own. R13.2 also: no value of the request by-passes the epoch comparison. R13.9 after a successful group Subscribe the member record carries this call's id, epoch and subscription; R13.10 members are registered only while a mark that cancelGroupSubscribers sets under consumersMu is clear (F85). R13.1 consumersMu held at every access of partition.consumers, R13.2 stale epoch refused first, R13.3 close-before-store and untouched table on early returns, R13.4 de-registration by identity, R13.5 lock pairing, R13.6 Close signals once, R13.7 check → replace → register is one critical section. NOT decided: the interleavings.",
+		Explanation: "R13.2 also (round 10): an empty group id reaches the bookkeeping only for a request without a consumer. R13.8 also (round 8): cancelGroupSubscribers closes the gate on every path, whatever the server believes its role was. R13.2 also: the member's epoch is compared with the request's own. R13.2 also: no value of the request by-passes the epoch comparison. R13.9 after a successful group Subscribe the member record carries this call's id, epoch and subscription; R13.10 members are registered only while a mark that cancelGroupSubscribers sets under consumersMu is clear (F85). R13.1 consumersMu held at every access of partition.consumers, R13.2 stale epoch refused first, R13.3 close-before-store and untouched table on early returns, R13.4 de-registration by identity, R13.5 lock pairing, R13.6 Close signals once, R13.7 check → replace → register is one critical section. NOT decided: the interleavings.",
 	})
 }
 
